@@ -32,7 +32,11 @@ pub fn write(
                 // from the file. If there is no note segment with the build id in
                 // the program headers, we can't get to the note section if the section header
                 // table isn't loaded.
-                if let Some(path) = &dumper.mappings[map_idx].name {
+                let name = &dumper.mappings[map_idx].name;
+                if !MappingInfo::is_mapped_file_safe_to_open(name) {
+                    return Err(e);
+                }
+                if let Some(path) = name {
                     let path = std::path::Path::new(&path);
                     if path.exists() {
                         log::debug!("failed to get build id from process memory ({e}), attempting to retrieve from {}", path.display());
